@@ -105,3 +105,120 @@ Definition inline_table (inline : bool) (g : grammar) : list bool :=
     | _ :: t => false :: t
     end
   else map (fun _ => false) g.
+
+(** * Diagnostics on the grammar as written: a list of (name, body) definitions in order;
+    in this section [EName n] refers to the NAME n (not to a rule index). *)
+Definition rawg := list (nat * expr).
+
+Section Diag.
+Variable g : rawg.
+
+Fixpoint lookup_def (l : rawg) (n : nat) : option expr :=
+  match l with
+  | [] => None
+  | (m, b) :: l' => if n =? m then Some b else lookup_def l' n
+  end.
+Definition defined (n : nat) : bool := match lookup_def g n with Some _ => true | None => false end.
+
+Fixpoint names_of (e : expr) : list nat :=
+  match e with
+  | EName n => [n]
+  | ESeq es | EAlt es => flat_map names_of es
+  | EAnd e1 | ENot e1 | EQuery e1 | EStar e1 | EPlus e1 | EPush e1 => names_of e1
+  | ESwitch cs d => flat_map (fun c => names_of (snd c)) cs ++ names_of d
+  | _ => []
+  end.
+
+Fixpoint dedup (l : list nat) : list nat :=
+  match l with
+  | [] => []
+  | x :: l' => if memb x l' then dedup l' else x :: dedup l'
+  end.
+
+(** "rule 'X' used but not defined" *)
+Definition undefined_names : list nat :=
+  dedup (filter (fun n => negb (defined n)) (flat_map (fun d => names_of (snd d)) g)).
+
+(** rules defined more than once *)
+Fixpoint dups_of (l : list nat) : list nat :=
+  match l with
+  | [] => []
+  | x :: l' => if memb x l' then x :: dups_of l' else dups_of l'
+  end.
+Definition duplicate_names : list nat := dedup (dups_of (map fst g)).
+
+(** countRules: names reached from the first rule, depth first *)
+Fixpoint reach_f (n : nat) (e : expr) (seen : list nat) {struct n} : list nat :=
+  match n with
+  | O => seen
+  | S n =>
+    match e with
+    | EName m =>
+        if memb m seen then seen
+        else match lookup_def g m with
+             | Some b => reach_f n b (m :: seen)
+             | None => m :: seen
+             end
+    | ESeq es | EAlt es => fold_left (fun s x => reach_f n x s) es seen
+    | EAnd e1 | ENot e1 | EQuery e1 | EStar e1 | EPlus e1 | EPush e1 => reach_f n e1 seen
+    | _ => seen
+    end
+  end.
+
+Definition rawsize : nat := fold_right (fun d a => S (esize (snd d)) + a) 0 g.
+
+Definition reached_names : list nat :=
+  match g with
+  | [] => []
+  | (n0, _) :: _ => reach_f (S rawsize * S (length g)) (EName n0) []
+  end.
+
+(** "rule 'X' defined but not used" *)
+Definition unused_names : list nat :=
+  filter (fun n => negb (memb n reached_names)) (dedup (map fst g)).
+
+(** checkRecursion (after the fix): returns (must consume, names warned in order) *)
+Fixpoint chk_f (n : nat) (path : list nat) (e : expr) {struct n} : bool * list nat :=
+  match n with
+  | O => (false, [])
+  | S n =>
+    match e with
+    | EName m =>
+        match lookup_def g m with
+        | None => (false, [])
+        | Some b => if memb m path then (false, [m]) else chk_f n (m :: path) b
+        end
+    | EAlt es =>
+        fold_left (fun acc x => let r := chk_f n path x in (fst acc && fst r, snd acc ++ snd r)) es (true, [])
+    | ESeq es =>
+        (* elements in order until one consumes *)
+        (fix go (l : list expr) (w : list nat) : bool * list nat :=
+           match l with
+           | [] => (false, w)
+           | x :: l' => let r := chk_f n path x in
+                        if fst r then (true, w ++ snd r) else go l' (w ++ snd r)
+           end) es []
+    | EAnd e1 | ENot e1 | EQuery e1 | EStar e1 => (false, snd (chk_f n path e1))
+    | EPlus e1 | EPush e1 => chk_f n path e1
+    | EDot | EChar _ | ERange _ _ => (true, [])
+    | _ => (false, [])
+    end
+  end.
+
+(** one run per definition, in order *)
+Definition leftrec_warnings : list nat :=
+  flat_map (fun d => snd (chk_f (S rawsize * S (length g)) [] (EName (fst d)))) g.
+
+End Diag.
+
+(** executable closure check used as a (always re-evaluated) side condition of the exactness theorem *)
+Definition closed_b (g : rawg) (s : list nat) : bool :=
+  match g with
+  | [] => true
+  | (n0, _) :: _ =>
+      memb n0 s &&
+      forallb (fun m => match lookup_def g m with
+                        | Some b => forallb (fun k => memb k s) (names_of b)
+                        | None => true
+                        end) s
+  end.
